@@ -80,7 +80,9 @@ PROPS = {
              "the fixed code and once under a random complete dynamic code, length 258 in both codings; all 8x256 "
              "(bit offset, fill) patterns of final-byte padding and of stored-block padding. sampled: directed "
              "dynamic headers, generator streams (+trailing garbage, +1 mutant), compressor streams, pathological "
-             "shapes. evaluations = calls of the parse_and_rewrite hook. non-trivial = the parser accepted, "
+             "shapes (incl. 256/257 symbols of one code length, stored LEN/NLEN fields across multiples of 64 KiB). A known-valid stream "
+             "that the current parser rejects but the frozen reference parser rewrites identically is a violation. "
+             "evaluations = calls of the parse_and_rewrite hook. non-trivial = the parser accepted, "
              "distinct by content hash of the consumed prefix",
         assumptions=COMMON_ASSUME + [
             "hook verif::parse_and_rewrite drives DeflateWriter exactly as recreate_blocks does; cross-checked "
@@ -125,7 +127,8 @@ PROPS.update({
         rule="one premise-satisfying stream per case x 4 wrapper kinds (zlib 4 header bytes; gzip 16 optional-field subsets "
              "with random field contents; ZIP name/extra lengths 0..300, data descriptor, central directory; PNG 1-8 IDAT "
              "chunks with/without envelope) x clean/hostile junk x prefix/suffix lengths 0..4096, a sixth of the files with the "
-             "wrapper's two signature bytes on or next to a multiple of 64 KiB. evaluations = files expanded. "
+             "wrapper's two signature bytes on or next to a multiple of 64 KiB; gzip names/comments up to 70 KB; a zlib stream that "
+             "fills ONE IDAT chunk of at most 1024 bytes is judged under the zlib clause. evaluations = files expanded. "
              "non-trivial = premise holds and the plaintext does not already occur verbatim in the file, distinct by content hash",
         assumptions=COMMON_ASSUME,
         min_evaluations=200,
@@ -139,7 +142,7 @@ PROPS.update({
         rule="files from the C01 assembler (incl. edge cases, noise, mutants) x capacities {0, 1, size/2, size-1, size, size+1, "
              "size+k, 2*size, occasionally 128 MiB} where size = |expand(F)|, plus non-frames {empty, the file itself, noise, "
              "three truncations of the frame, frame without last byte, frame without magic}; one file in 4000 is 3 to 40 MiB of "
-             "noise (sizes walked systematically). evaluations = decompress_zstd "
+             "noise (sizes walked systematically); two files with a zlib member of about 137 and 35 MiB of plaintext. evaluations = decompress_zstd "
              "calls judged. non-trivial = file whose compress_zstd succeeded and whose whole sweep ran, distinct by content hash",
         assumptions=COMMON_ASSUME + ["|expand(F)| is deterministic (C14)"],
         min_evaluations=500,
@@ -153,7 +156,9 @@ PROPS.update({
         rule="containers = expand(F) for assembled files (all three chunk kinds, literal chunks > 64 KiB, multi-chunk PNG, edge "
              "cases). per container: 36 read x write fragmentation patterns without fault; a read fault at every structural "
              "offset (tag, varints, first/last payload and correction byte, EOF probe) + random offsets, a write fault at chunk "
-             "boundaries + random offsets; thorough: every offset for containers/files <= 4 KiB, 300 random offsets otherwise. evaluations = reconstruction "
+             "boundaries + random offsets; thorough: every offset for containers/files <= 4 KiB, 300 random offsets otherwise. The sink also "
+             "implements gather writes (partial counts ending inside any slice); injected errors come with a short payload, without "
+             "payload, with a 300-character non-ASCII message at every alignment, with a 1000-byte message. evaluations = reconstruction "
              "attempts. non-trivial = container whose plain round trip holds, distinct by content hash",
         assumptions=COMMON_ASSUME,
         min_evaluations=500,
@@ -183,7 +188,8 @@ PROPS.update({
         level="exploration",
         rule="single operations enumerated completely (10 x (2^17 + 5) corrections, sum over widths 1..16 of 2^w plain values, all "
              "flags and flag/correction pairs); random sequences (40 per case) in six styles: long default runs, one context "
-             "hammered, bypass/arithmetic interleaving, flags only, everything mixed; operation sequences recorded from real "
+             "hammered, bypass/arithmetic interleaving, flags only, everything mixed; every eighth case one run of 16384..131073 default "
+             "operations (lengths on and around 2^15 and 2^16) closed by a non-default one; operation sequences recorded from real "
              "analyses. evaluations = sequences round-tripped. non-trivial = multi-operation sequence, distinct by content hash",
         assumptions=COMMON_ASSUME + ["hook verif::cabac_roundtrip uses PredictionEncoderCabac<VP8Writer>/PredictionDecoderCabac<VP8Reader> as the library does"],
         min_evaluations=1000,
@@ -235,7 +241,9 @@ PROPS.update({
         level="fault_enumeration",
         rule="files: edge cases, arbitrary bytes, empty, small assembled files (dense capacity sweep) and larger assembled/mutated "
              "files (boundary sweep) x both wrappers x capacities x guard placement (page after / page before the buffer); plus "
-             "non-frame inputs to WrapperDecompressZip. evaluations = wrapper calls under the fence. non-trivial = file whose "
+             "non-frame inputs to WrapperDecompressZip; a tenth of the files wrap one of the pathological stream shapes (walked "
+             "systematically). If the current build cannot expand a file but the frozen reference build can, the ample buffer is sized "
+             "from the reference expansion and the round trip is still owed. evaluations = wrapper calls under the fence. non-trivial = file whose "
              "whole sweep ran, distinct by content hash",
         assumptions=COMMON_ASSUME + ["a SIGSEGV/SIGABRT of the worker is attributed to the case in flight by the supervisor and confirmed in isolation"],
         min_evaluations=1000,
@@ -251,7 +259,8 @@ PROPS.update({
              "(sequential repeat, 3 concurrent phases on 16 threads, 3 processes); every 12th case adds a zlib stream with 4 to 7 MiB "
              "of plaintext in which estimator candidates tie (run-length-only, stored, level 1, Huffman-only), called 3x in sequence "
              "and from 6 threads; every 50th case repeats calls on one thread before and after a call whose expanded form exceeds "
-             "128 MiB. non-trivial = (input, all-function result row), "
+             "128 MiB; the three processes differ in their address-space limit (none, 3 GiB, 8 GiB). A call during which the whole "
+             "process uses no CPU for 30 s is reported as blocked. non-trivial = (input, all-function result row), "
              "distinct by digest",
         assumptions=COMMON_ASSUME,
         min_evaluations=500,
